@@ -303,6 +303,8 @@ def random_spec(rng, **o):
         s.channel_map = np.arange(nc, dtype=np.int64)
     nsh = g('shanks', 0)
     pos, sh = geometry(rng, nc, max(1, nsh), ties=g('ties', False), interleave=g('interleave', False))
+    if g('pos_scale', 0):
+        pos = pos * g('pos_scale', 0)            # coordinates in other units (metres instead of micrometres)
     if g('pos_offset', 0):
         pos = pos + g('pos_offset', 0)           # absolute coordinates far from the origin
     s.positions = pos.astype(g('dtype_pos', 'float64'))
@@ -332,6 +334,8 @@ def random_spec(rng, **o):
     if g('flat_template', False):
         T[int(rng.integers(0, nt))] = 0            # a template without any signal (it may still own spikes)
     T = T.astype(g('dtype_templates', 'float32'))
+    if T.dtype == np.float64:
+        T = T * (1 + 2.0 ** -40)          # genuinely double-precision values (not representable in float32)
     s.templates = T
     if g('sparse_templates', False):
         nloc = min(nc, g('tnloc', int(rng.integers(2, 5))))
